@@ -171,6 +171,8 @@ def name_tok(draw, name, ctxflags):
 
 UNKNOWN_NAMES = ["unk", "zz9", "nosuch", "Unknown_1"]
 TITLES = ["a", "b", "t1", "A", "x y", "it's", "q\"uote", "b\\s", "", "1", "a|b", "k=v"]
+# titles are drawn with a bias towards repeats, also repeats that differ in letter case only
+TITLES_W = TITLES + ["a", "A", "a", "A", "b", "B", "t1", "T1"]
 KEYS = ["k1", "key", "another-key", "K", "k.2"]
 
 
@@ -212,7 +214,7 @@ def item(draw, opts, ctxflags, depth, keystrval=False, allow_unknown=True, bad_p
     k = o["k"]
     if k == "sec":
         if o["f"] & F_TITLE:
-            toks.append(S(draw(st.sampled_from(TITLES)), draw(st.sampled_from(["bare", "dq", "sq"]))))
+            toks.append(S(draw(st.sampled_from(TITLES_W)), draw(st.sampled_from(["bare", "dq", "sq"]))))
             w()
         toks.append(P("{"))
         w()
